@@ -307,7 +307,49 @@ class Gen:
                                                        validators=r.choice([su.validators[:1], su.validators]))
         else:
             msg["protocol_fee_config"] = {"dao_treasury_fee": "10000", "treasury_address": r.choice([su.staker, "x", su.treasury.upper()])}
+        if r.random() < 0.35:
+            msg = self.multi_section_update()
         return [exec_ev(self.current_admin(), {"update_config": msg})]
+
+    def multi_section_update(self):
+        """an arbitrary subset of sections in one message, with prefix changes: addresses of the later
+        sections are minted under the old or the new prefix of the earlier ones"""
+        from . import bech32
+        r = self.rng
+        su = self.su
+        c = self.h.dump["contract"].get("config")
+        c = c["ok"] if isinstance(c, dict) and "ok" in c else None
+        old_p = c["protocol_chain_config"]["account_address_prefix"] if c else su.proto_prefix
+        old_n = c["native_chain_config"]["account_address_prefix"] if c else su.native_prefix
+        msg = {"native_chain_config": None, "protocol_chain_config": None, "protocol_fee_config": None,
+               "monitors": None, "batch_period": None}
+        new_p, new_n = old_p, old_n
+        if r.random() < 0.6:
+            new_p = r.choice([old_p, su.proto_prefix, "cosmos", "celestia", "init"])
+            o = r.choice([None, bech32.addr(new_p, "oracle", 32), bech32.addr(old_p, "oracle", 32), su.oracle])
+            msg["protocol_chain_config"] = su.proto_cfg(account_address_prefix=new_p, oracle_address=o)
+        if r.random() < 0.4:
+            new_n = r.choice([old_n, su.native_prefix, "cosmos", "osmo"])
+            vp = r.choice([su.val_prefix, new_n + "valoper"])
+            pick = r.choice([new_n, new_n, old_n])
+            msg["native_chain_config"] = su.native_cfg(
+                account_address_prefix=new_n, validator_address_prefix=vp,
+                staker_address=bech32.addr(pick, "staker"), reward_collector_address=bech32.addr(r.choice([new_n, pick]), "collector"),
+                validators=[bech32.addr(r.choice([vp, vp, su.val_prefix]), "val%d" % i) for i in range(r.choice([1, 2, 3]))])
+        if r.random() < 0.5:
+            p = r.choice([new_p, new_p, old_p])
+            msg["protocol_fee_config"] = {"dao_treasury_fee": str(r.choice([0, 5000, 100_000])),
+                                          "treasury_address": r.choice([None, bech32.addr(p, "treasury", 32)])}
+        if r.random() < 0.6:
+            k = r.choice([0, 1, 2, 2])
+            ps = [r.choice([new_p, new_p, old_p]) for _ in range(k)]
+            ms = [bech32.addr(p, "monitor%d" % (i + 1)) for i, p in enumerate(ps)]
+            if ms and r.random() < 0.1:
+                ms.append(ms[0])
+            msg["monitors"] = ms
+        if r.random() < 0.3:
+            msg["batch_period"] = r.choice([1, 3600, DAY])
+        return msg
 
     def ev_validators(self):
         r = self.rng
